@@ -15,6 +15,7 @@ import (
 	"os"
 	"strconv"
 
+	tdh "github.com/go-text/typesetting-utils/harfbuzz"
 	td "github.com/go-text/typesetting-utils/opentype"
 	"github.com/go-text/typesetting/di"
 	"github.com/go-text/typesetting/font"
@@ -33,6 +34,7 @@ type reuseOp struct {
 	W    int    `json:"w"`
 	G    int    `json:"g"`
 	Para int    `json:"para"`
+	Feat int    `json:"feat"`
 }
 
 func digestOf(v ...interface{}) string {
@@ -62,7 +64,7 @@ func lineDigest(l shaping.Line) string {
 }
 
 var reuseFonts struct {
-	varFont, staticFont *font.Font
+	varFont, staticFont, altFont *font.Font
 }
 
 func loadReuseFonts() error {
@@ -81,8 +83,20 @@ func loadReuseFonts() error {
 	if reuseFonts.varFont, err = load("common/Commissioner-VF.ttf"); err != nil {
 		return err
 	}
-	reuseFonts.staticFont, err = load("common/Roboto-BoldItalic.ttf")
-	return err
+	if reuseFonts.staticFont, err = load("common/Roboto-BoldItalic.ttf"); err != nil {
+		return err
+	}
+	// a font with stylistic alternates (salt) selecting different glyphs for feature values 1 and 2
+	b, err := tdh.Files.ReadFile("harfbuzz_reference/in-house/fonts/3f24aff8b768e586162e9b9d03b15c36508dd2ae.ttf")
+	if err != nil {
+		return err
+	}
+	f, err := font.ParseTTF(bytes.NewReader(b))
+	if err != nil {
+		return err
+	}
+	reuseFonts.altFont = f.Font
+	return nil
 }
 
 var wghtTag = ot.MustNewTag("wght")
@@ -95,11 +109,18 @@ func newVarFace(w int) *font.Face {
 	return f
 }
 
-var reuseTexts = map[int][]rune{1: []rune("Hello fi office"), 2: []rune("AVATAR Ta. f")}
+var reuseTexts = map[int][]rune{1: []rune("Hello fi office"), 2: []rune("AVATAR Ta. f"), 3: []rune("صلطخلطج")}
 
-func shapeInput(face *font.Face, t int) shaping.Input {
+func shapeInput(face *font.Face, t int, feat int) shaping.Input {
 	text := reuseTexts[t]
-	return shaping.Input{Text: text, RunStart: 0, RunEnd: len(text), Face: face, Size: fixed.I(16), Direction: di.DirectionLTR, Script: language.Latin, Language: "en"}
+	in := shaping.Input{Text: text, RunStart: 0, RunEnd: len(text), Face: face, Size: fixed.I(16), Direction: di.DirectionLTR, Script: language.Latin, Language: "en"}
+	if t == 3 {
+		in.Direction, in.Script, in.Language = di.DirectionRTL, language.Arabic, "ar"
+	}
+	if feat != 0 {
+		in.FontFeatures = []shaping.FontFeature{{Tag: ot.MustNewTag("salt"), Value: uint32(feat)}}
+	}
+	return in
 }
 
 type recEnc struct {
@@ -131,7 +152,7 @@ func guard(f func() string) (d string, p string) {
 func reuseShaper(r recEnc, ops []reuseOp) {
 	var sh shaping.HarfbuzzShaper
 	v1w := 0
-	faces := map[string]*font.Face{"V1": newVarFace(0), "V2": newVarFace(900), "S1": font.NewFace(reuseFonts.staticFont)}
+	faces := map[string]*font.Face{"V1": newVarFace(0), "V2": newVarFace(900), "S1": font.NewFace(reuseFonts.staticFont), "A1": font.NewFace(reuseFonts.altFont)}
 	type kept struct {
 		step int
 		out  shaping.Output
@@ -141,7 +162,7 @@ func reuseShaper(r recEnc, ops []reuseOp) {
 		switch op.Op {
 		case "Shape":
 			var out shaping.Output
-			d, p := guard(func() string { out = sh.Shape(shapeInput(faces[op.Face], op.Text)); return outputDigest(&out) })
+			d, p := guard(func() string { out = sh.Shape(shapeInput(faces[op.Face], op.Text, op.Feat)); return outputDigest(&out) })
 			fd, _ := guard(func() string {
 				var fresh shaping.HarfbuzzShaper
 				var ff *font.Face
@@ -150,10 +171,12 @@ func reuseShaper(r recEnc, ops []reuseOp) {
 					ff = newVarFace(v1w)
 				case "V2":
 					ff = newVarFace(900)
+				case "A1":
+					ff = font.NewFace(reuseFonts.altFont)
 				default:
 					ff = font.NewFace(reuseFonts.staticFont)
 				}
-				o := fresh.Shape(shapeInput(ff, op.Text))
+				o := fresh.Shape(shapeInput(ff, op.Text, op.Feat))
 				return outputDigest(&o)
 			})
 			r.op(op.Op, d, fd, p)
@@ -183,7 +206,11 @@ func reuseFace(r recEnc, ops []reuseOp) {
 		switch op.Op {
 		case "SetVariations":
 			w = op.W
-			f.SetVariations([]font.Variation{{Tag: wghtTag, Value: float32(op.W)}})
+			if op.W == 0 {
+				f.SetVariations(nil) // back to the default instance
+			} else {
+				f.SetVariations([]font.Variation{{Tag: wghtTag, Value: float32(op.W)}})
+			}
 			r.op(op.Op, "-", "-", "ok")
 		case "SetPpem":
 			ppem = op.K
